@@ -30,6 +30,7 @@ FIXES = [
     ("C08", "fix: ∆f (nth Fibonacci number) vectorises", "∆f on a list raised (template sympy.fibonacci(lhs + 1)) although documented vectorise: true"),
     ("C02", "fix: break/continue in a while condition", "{X|+} / {x|+}: break/continue emitted in front of the while loop -> 'break' outside loop (410 programs of the context sweep)"),
     ("C02", "fix: break/continue inside a list item", "(⟨X⟩) / (⟨x⟩): break/continue emitted inside def list_item nested in a for loop -> SyntaxError (132 programs)"),
+    ("C18", "fix: parameter names keep only ASCII letters", "[^A-z_] lets [ \\ ] ^ ` through: @f:a\\[b\\]|1; emitted VAR_a[b] = pop(...), @f:^|1; emitted unparsable code (1800 payload cases)"),
     ("C02", "fix: the template of ¨…", "the template of ¨… had a positional argument after a keyword argument: every program containing ¨… failed to compile"),
 ]
 
